@@ -74,6 +74,7 @@ class AbstractBlob:
         'readers',
         'added_on',
         'is_mine',
+        'length_from_peer',
     ]
 
     def __init__(
@@ -92,6 +93,7 @@ class AbstractBlob:
         self.readers: typing.List[typing.BinaryIO] = []
         self.added_on = added_on or time.time()
         self.is_mine = is_mine
+        self.length_from_peer = False  # True while self.length is only what some peer's response announced
 
         if not is_valid_blobhash(blob_hash):
             raise InvalidBlobHashError(blob_hash)
@@ -163,6 +165,7 @@ class AbstractBlob:
         self.close()
         self.verified.clear()
         self.length = None
+        self.length_from_peer = False
 
     async def sendfile(self, writer: asyncio.StreamWriter) -> int:
         """
